@@ -200,6 +200,14 @@ func validateEncryptedPayload(encryptedInnerData []byte) error {
 			Errorf("encrypted inner data size %d < minimum %d",
 				len(encryptedInnerData), ENCRYPTED_LEASESET_MIN_ENCRYPTED_SIZE)
 	}
+	// The length is serialised in a 2-byte field; a longer payload would be
+	// stored with a truncated length and could never be parsed back.
+	if len(encryptedInnerData) > 65535 {
+		return oops.Code("encrypted_data_too_long").
+			With("size", len(encryptedInnerData)).
+			Errorf("encrypted inner data size %d exceeds the 65535 bytes a 2-byte length field can express",
+				len(encryptedInnerData))
+	}
 	return nil
 }
 
